@@ -6,6 +6,7 @@ import Juniper.Proofs.XSlices
 import Juniper.Proofs.IterLast
 import Juniper.Proofs.StreamLast
 import Juniper.Proofs.Pipeline
+import Juniper.Proofs.Minimal
 /-!
 # C07 — iterator / stream / xslices combinators compute their documented sequence function;
 lazy; sticky end (property theorems)
@@ -175,6 +176,29 @@ example : whileEnd (fun n : Nat => n < 3) (annot 0 [1, 2, 5, 1]) 4 = 3 := by dec
 theorem compact_pulls (eq : α → α → Bool) (l : List α) :
     Den (compact eq src) (fun st : CompactSt (Src α) α => st.inner.pulled) ⟨Src.of l, true, none⟩
       (Seq.compactGo (fun p q => eq p.1 q.1) none (annot 0 l)) l.length := compact_den eq (slice_denotes l) none
+
+/-! ### … and these pull counts are minimal -/
+
+/-- **`need_minimal_map`**: the `k`-th answer of `Map` costs `k` pulls, and `k - 1` source items leave it
+undetermined: had the source ended there, the `k`-th answer would be the end instead of an item. -/
+theorem need_minimal_map (f : α → β) (l : List α) (k : Nat) (hk1 : 1 ≤ k) (hk : k ≤ l.length) :
+    ideal ((l.take (k - 1)).map f) k ≠ ideal (l.map f) k := need_minimal_map' f l k hk1 hk
+
+/-- **`need_minimal_filter` / `_first` / `_while`**: the answer delivered at cost `c` *is* the `c`-th
+source item, so fewer than `c` items cannot determine it (the annotated outputs of `Filter`, `First`,
+`While` — and likewise `CompactFunc`, `WithPeek` — are sub-lists of the source's annotated items). -/
+theorem need_minimal_filter (keep : α → Bool) (l : List α) (q : α × Nat)
+    (hq : q ∈ (annot 0 l).filter fun r => keep r.1) : 0 < q.2 ∧ l[q.2 - 1]? = some q.1 :=
+  need_minimal_filter' keep l q hq
+
+theorem need_minimal_first (n : Nat) (l : List α) (q : α × Nat) (hq : q ∈ (annot 0 l).take n) :
+    0 < q.2 ∧ l[q.2 - 1]? = some q.1 := need_minimal_first' n l q hq
+
+theorem need_minimal_while (f : α → Bool) (l : List α) (q : α × Nat)
+    (hq : q ∈ (annot 0 l).takeWhile fun r => f r.1) : 0 < q.2 ∧ l[q.2 - 1]? = some q.1 :=
+  need_minimal_while' f l q hq
+
+example : (3, 3) ∈ (annot 0 [1, 2, 3, 4]).filter fun r => r.1 % 2 == 1 := by decide
 
 /-! ### reducers -/
 
